@@ -30,12 +30,13 @@ Print Assumptions C07_timeout_zero_stall_hangs.
    every number of reads the device answers before it goes silent, either kind of stall, NO_TERMINATE on or
    off, channel lock on or off, any previous SIGALRM handler / pending timer: the operation raises
    ScrapliTimeout (with the message of whichever limit fires first) no later than timeout_ops, the transport
-   is closed unless NO_TERMINATE, and handler, timer, worker threads and lock are as before.
+   is closed unless NO_TERMINATE, and handler, timer, worker threads, lock and the asyncio tasks (wrapped calls
+   still running behind a decorated call that is over) are as before.
    The two extra hypotheses are the regions of the known findings (thread mechanism: NO_TERMINATE on, or a
    read that closing the transport does not end; signal over a decorated read with the longer timeout). *)
 Theorem C07_timeout_fires :
   forall m c pre l post s,
-    c_rearm c = true -> stall_premises m c pre l s ->
+    c_rearm c = true -> c_cancel c = true -> stall_premises m c pre l s ->
     (m = MThread -> c_nt c = false /\ l = StallClosed) ->
     (m = MSignal -> inner_eff m c = true -> dur pre + c_Ti c < c_To c) ->
     fires m c pre s (run_op m c (pre ++ l :: post) s).
@@ -44,7 +45,7 @@ Print Assumptions C07_timeout_fires.
 
 Theorem C07_timeout_fires_within_limit :
   forall m c pre l post s,
-    c_rearm c = true -> stall_premises m c pre l s ->
+    c_rearm c = true -> c_cancel c = true -> stall_premises m c pre l s ->
     (m = MThread -> c_nt c = false /\ l = StallClosed) ->
     (m = MSignal -> inner_eff m c = true -> dur pre + c_Ti c < c_To c) ->
     exists msg, out (run_op m c (pre ++ l :: post) s) = Raised (ETimeout msg) /\
@@ -77,6 +78,20 @@ Theorem C07_thread_unclosable_hangs :
     out (run_wrapped MThread rearm nt T msg Stall s) = Hang.
 Proof. exact thread_unclosable_hangs. Qed.
 Print Assumptions C07_thread_unclosable_hangs.
+
+(* asyncio: a decorator that does not hand its own cancellation on to the wrapped call (c_cancel = false, e.g.
+   the wrapped call run as a task of its own and waited for with asyncio.wait) leaves the decorated transport
+   read running whenever the operation's limit falls due first; the code as it is (asyncio.wait_for, c_cancel =
+   true, tied by C07_generated_structure and the correspondence run) is covered by C07_timeout_fires *)
+Theorem C07_async_uncancelled_read_left_running :
+  forall c pre l post s,
+    c_cancel c = false -> stall_premises MAsync c pre l s ->
+    c_wrapped c = true -> 0 < c_Ti c -> inner_first MAsync c pre = false ->
+    (l = StallClosed -> c_nt c = true) ->
+    let r := run_op MAsync c (pre ++ l :: post) s in
+    out r = Raised (ETimeout (c_mo c)) /\ tasks (rst r) = S (tasks s) /\ ~ restored MAsync s (rst r).
+Proof. exact asy_uncancelled_leaves_task. Qed.
+Print Assumptions C07_async_uncancelled_read_left_running.
 
 (* the pinned commit (ITIMER_REAL zeroed in the finally) is refuted; the code as it is now is covered above *)
 Theorem C07_legacy_signal_zeroes_timer :
@@ -149,11 +164,13 @@ Proof. repeat split; vm_compute; reflexivity. Qed.
 Print Assumptions C07_generated_decorated.
 
 (* shape of the decorator and the defaults: the finally restores handler and timer, the pool joins its worker,
-   _handle_timeout closes unless NO_TERMINATE and raises ScrapliTimeout, wait_for's TimeoutError is handled;
-   termination on timeout is on and both limits are enabled by default *)
+   _handle_timeout closes unless NO_TERMINATE and raises ScrapliTimeout, wait_for's TimeoutError is handled and
+   the wrapped coroutine is only ever awaited on the spot or through wait_for (so that cancelling the decorated
+   call cancels it: c_cancel = true); termination on timeout is on and both limits are enabled by default *)
 Theorem C07_generated_structure :
   (gen_signal_finally_restores, gen_pool_joins_worker, gen_handle_timeout_closes_and_raises,
-   gen_async_wait_for_handled, gen_no_terminate_default) = (true, true, true, true, false)
+   gen_async_wait_for_handled, gen_async_cancel_reaches_wrapped, gen_no_terminate_default)
+  = (true, true, true, true, true, false)
   /\ 0 < gen_default_timeout_ops /\ 0 < gen_default_timeout_transport.
 Proof. repeat split; vm_compute; reflexivity. Qed.
 Print Assumptions C07_generated_structure.
